@@ -223,6 +223,64 @@ def void_replay(vals):
     return src, n, void_judge(src, n)
 
 
+VERB_FORMS = [
+    "int f(int a = 1 {t} 2);", "int v = 3 {t} 4;", "template <int N = 5 {t} 6> struct T {{}};", "struct S {{ void m(int q = 7 {t} 8) const; int b = 9 {t} 1; }};",
+    "enum E {{ A = 1 {t} 2 }};", "void g(const char *s = \"{t}s {t}d\");", "int arr[1 {t} 2];", "A<(1 {t} 2)> x;", "auto h() -> decltype(1 {t} 2);",
+    "void n() noexcept(1 {t} 2);", "#pragma omp {t}\n", "S::S() : a(1 {t} 2) {{}}", "using U = B<1 {t} 2>;", "template <typename T> requires (1 {t} 2) void r();",
+]
+
+
+def verbose_tokens():
+    """every single-character operator the lexer defines plus a few multi-character ones (read from the lexer each run)"""
+    from cxxheaderparser.lexer import PlyLexer
+
+    toks = [c for c in PlyLexer.literals if c not in "(){}[];,\\'\"<>:?="]
+    return toks + ["&&", "||", "<<", "->", "/", "::", "..."]
+
+
+def verbose_judge(src):
+    from cxxheaderparser.simple import parse_string
+    from cxxheaderparser.options import ParserOptions
+    from cxxheaderparser.errors import CxxParseError
+
+    try:
+        d = parse_string(src)
+    except CxxParseError:
+        d = "error"
+    buf = io.StringIO()
+    with contextlib.redirect_stdout(buf):
+        try:
+            dv = parse_string(src, options=ParserOptions(verbose=True))
+        except CxxParseError:
+            dv = "error"
+        except Exception as e:  # noqa
+            dv = "error" if d == "error" else f"raised {type(e).__name__}: {e}"
+    if d != dv:
+        return f"verbose=True changes the outcome: default {('a result' if d != 'error' else 'CxxParseError')}, verbose {dv if isinstance(dv, str) else 'a different result'}"
+    return None
+
+
+def h_verbose(c0: int, c1: int) -> bool:
+    """
+    post: _
+    """
+    with NoTracing():
+        ch = Chooser([c0, c1])
+        toks = verbose_tokens()
+        src = VERB_FORMS[ch.pick(len(VERB_FORMS))].format(t=toks[ch.pick(len(toks))])
+        bad = verbose_judge(src)
+        if TWIN:
+            return False
+        return bad is None
+
+
+def verbose_replay(vals):
+    ch = Chooser(list(vals), prefix=())
+    toks = verbose_tokens()
+    src = VERB_FORMS[ch.pick(len(VERB_FORMS))].format(t=toks[ch.pick(len(toks))])
+    return src, verbose_judge(src)
+
+
 def verbose_error_judge(src):
     """invalid input: non-verbose raises CxxParseError, verbose raises too (diagnostics only: never a result)"""
     from cxxheaderparser.simple import parse_string
@@ -273,8 +331,37 @@ def run(tier):
         res2 = chrun.run(__name__, "h_void", shards, timeout=(120 if tier == "quick" else 900), pool=pool)
         chrun.record(ck, res2, "convert_void_to_zero_params / verbose differential over generated declarations",
                      bound=f"11 forms x {len(LISTS)} parameter lists per slot (up to 2 slots)")
+        tw = chrun.run(__name__, "h_verbose", [(0, 0)], timeout=60, globs=dict(TWIN=True), pool=pool)
+        chrun.record(ck, tw, "verbose differential reachability twin", expect="refuted")
+        res3 = chrun.run(__name__, "h_verbose", [(a,) for a in range(len(VERB_FORMS))], timeout=(120 if tier == "quick" else 600), pool=pool)
+        chrun.record(ck, res3, "verbose == default over value-bearing declarations x every operator token", bound=f"{len(VERB_FORMS)} forms x {len(verbose_tokens())} tokens")
     finally:
         pool.shutdown()
+    seen3 = set()
+    for shard, args, kw, msg in res3.counterexamples:
+        src, bad = verbose_replay(list(shard) + list(args))
+        ck.traces += 1
+        if bad is None:
+            raise HarnessError(f"verbose counterexample did not reproduce: {msg} {src!r}")
+        if bad[:60] in seen3:
+            continue
+        seen3.add(bad[:60])
+        body = ("from vf.props import c18\n" f"src, bad = c18.verbose_replay({list(shard) + list(args)!r})\nprint(src); print(bad)\nsys.exit(1 if bad else 0)\n")
+        ck.violation(f"{bad} for {src!r}", ck.write_replay(body), key=dict(kind="verbose", what=bad[:40]))
+    # verbose == default on the repo's own test inputs
+    from .. import rx as _rx
+    nverb = 0
+    for src in _rx.test_corpus_snippets():
+        import inspect as _inspect
+        src = _inspect.cleandoc(src)
+        bad = verbose_judge(src)
+        nverb += 1
+        ck.traces += 1
+        if bad:
+            body = ("from vf.props import c18\n" f"bad = c18.verbose_judge({src!r})\nprint(bad)\nsys.exit(1 if bad else 0)\n")
+            ck.violation(f"{bad} for test-suite input {src[:60]!r}", ck.write_replay(body), key=dict(kind="verbose", what=bad[:40]))
+            break
+    ck.sub("verbose == default on the test-suite inputs", "replay", "holds", inputs=nverb)
     for shard, args, kw, msg in res.counterexamples[:1]:
         fn = kw.get("filename", args[0] if args else "a")
         ct = kw.get("content", args[1] if len(args) > 1 else "b")
